@@ -464,6 +464,80 @@ def make_rewriter(rel, plan):
     return rw
 
 
+def make_arm_synth(rel, arms, line_map):
+    """(round 9) target key `arms`: [{"impl": "ChannelHandler", "fn": "do_handle", "arm": "RevokeCommitmentTx",
+    "ret": "msgs::RevokeCommitmentTxReply"}, …].  Every listed arm `Message::<arm>(<binder>) => <body>` of the `match` in
+    `<impl>::<fn>` is appended to the source text as a method of its own,
+
+        impl <impl> { fn <fn>__<arm>(&self, <binder>: msgs::<arm>) -> Result<<ret>> <body> }
+
+    (the body's tokens verbatim; an expression arm is wrapped in braces), which is then translated like any other method:
+    what the handler does with one message kind becomes one generated definition.  `ret` is the reply type the arm boxes
+    (`Ok(Box::new(msgs::XReply {..}))`: `Box::new` is the identity, so a wrong declaration is a type error of the
+    translation).  Fail closed: an arm that is not found exactly once marks the method as failed."""
+    from rsparse import FileIndex
+
+    def rw(src, log, failed):
+        idx = FileIndex(rel, src)
+        toks = idx.toks
+        out = []
+        for a in arms:
+            impl, fn, arm = a["impl"], a["fn"], a["arm"]
+            name = "%s__%s" % (fn, arm)
+            k = idx.fns.get((impl, fn))
+            if not isinstance(k, int):
+                failed[(impl, name)] = "%s: function %s::%s not found or ambiguous" % (rel, impl, fn); continue
+            j, d = k, 0
+            while toks[j].s != "{": j += 1
+            e = j
+            while e < len(toks):
+                if toks[e].k != "str":
+                    if toks[e].s == "{": d += 1
+                    elif toks[e].s == "}":
+                        d -= 1
+                        if d == 0: break
+                e += 1
+            hits = [i for i in range(j, e - 3) if toks[i].s == "Message" and toks[i + 1].s == "::" and toks[i + 2].s == arm
+                    and toks[i + 3].s == "(" and toks[i].k == "id"]
+            hits = [i for i in hits if any(toks[q].s == "=>" for q in range(i + 4, min(i + 12, e)))]
+            if len(hits) != 1:
+                failed[(impl, name)] = "%s: arm Message::%s occurs %d times in %s::%s" % (rel, arm, len(hits), impl, fn); continue
+            i = hits[0] + 4
+            binder = []
+            while toks[i].s != ")":
+                binder.append(toks[i].s); i += 1
+            if len(binder) != 1 or toks[i + 1].s != "=>":
+                failed[(impl, name)] = "%s: arm Message::%s: binder %r / no `=>`" % (rel, arm, binder); continue
+            b = i + 2
+            if toks[b].s == "{":
+                q, d = b, 0
+                while True:
+                    if toks[q].k != "str":
+                        if toks[q].s == "{": d += 1
+                        elif toks[q].s == "}":
+                            d -= 1
+                            if d == 0: break
+                    q += 1
+                body = " ".join(t.s for t in toks[b:q + 1])
+            else:
+                q, d = b, 0
+                while True:
+                    if toks[q].k != "str":
+                        if toks[q].s in ("(", "{", "["): d += 1
+                        elif toks[q].s in (")", "}", "]"):
+                            if d == 0: break
+                            d -= 1
+                        elif toks[q].s == "," and d == 0: break
+                    q += 1
+                body = "{ " + " ".join(t.s for t in toks[b:q]) + " }"
+            bn = binder[0] if binder[0] != "_" else "_m"
+            out.append("impl %s { fn %s(&self, %s: msgs::%s) -> Result<%s> %s }" % (impl, name, bn, a.get("payload", arm), a["ret"], body))
+            line_map[(impl, name)] = toks[hits[0]].line
+            log.append(("arm `Message::%s` of %s::%s (%s:%d) as the method %s" % (arm, impl, fn, rel, toks[hits[0]].line, name), 1))
+        return src + "\n" + "\n".join(out) + "\n"
+    return rw
+
+
 def load_targets():
     """TARGETS above plus every `translate/fn_targets/*.json` (one file per area and builder, so that adding targets
     never conflicts in git).  A file holds one dict or a list of dicts with the keys of a TARGETS block
@@ -508,11 +582,30 @@ FIXTURE_PROP = "FIX"    # functions of harness/src/props/fn_gen_fixture.rs: diff
 
 
 def unit_for(repo, tg):
+    line_map = {}
+    rws = []
+    if tg.get("arms"): rws.append(make_arm_synth(tg["rel"], tg["arms"], line_map))
+    if tg.get("rules"):
+        # (round 9) normalisation rules of a fn_targets/*.json file: {"name": [regex, replacement, why, count?]}
+        for rn, r in tg["rules"].items():
+            if rn in RULES and tuple(RULES[rn]) != tuple(r): raise ExtractError("x_fn: rule %s is defined twice" % rn)
+            RULES[rn] = tuple(r)
+    if tg.get("normalise"):
+        plan = {}
+        for k_, v_ in tg["normalise"].items():      # JSON: "Impl::function" / "function" as the key
+            if isinstance(k_, str): k_ = tuple(k_.split("::")) if "::" in k_ else (None, k_)
+            plan[k_] = v_
+        rws.append(make_rewriter(tg["rel"], plan))
+    def rewrite(src, log, failed):
+        for r in rws: src = r(src, log, failed)
+        return src
     u = Unit(repo, tg["rel"], "VlsModel.Gen.Fn" + tg["area"], tg.get("consts", ()), tg.get("externals", {}),
              tg.get("structs", ()), foreign_structs=tg.get("foreign_structs"), tuple_structs=tg.get("tuple_structs"),
              fn_files=tg.get("fns_from", ()),
              views=tg.get("views"), error_ctors=tg.get("error_ctors"), compact_guards=bool(tg.get("compact_guards")), any_order=bool(tg.get("any_order")),
-             rewrite=make_rewriter(tg["rel"], tg["normalise"]) if tg.get("normalise") else None)
+             rewrite=rewrite if rws else None)
+    u.vec_types = tuple(tg.get("vec_types", ()))
+    u.line_map = line_map      # synthesized methods (arms): the line of the arm in the real source
     u.log_macros = tuple(tg.get("log_macros", ()))     # declared logging-only macros of the file
     return u
 
